@@ -312,14 +312,15 @@ def make_machine(stats, report):
             self.do(f'{v}::{wv}:-{val},{idx}', {v})
 
         @rule(data=st.data(), f=st.sampled_from(['f', 'g']),
-              tpl=st.sampled_from(['{{{w}+x}}', '{{x;(,1),{w}*2}}', '{{x;{w}}}', '{{[q];q::x;{w}::q+1;q}}', '{{x;#{w}}}', '{{x*{w}}}', '{{x;+/{w}}}']))
+              tpl=st.sampled_from(['{{{w}+x}}', '{{x;(,1),{w}*2}}', '{{x;{w}}}', '{{[q];q::x;{w}::q+1;q}}', '{{x;#{w}}}', '{{x*{w}}}', '{{x;+/{w}}}',
+                                   '{{[q];q::x;{w}::"ab";q}}', '{{[q];q::x;{w}::,x;q}}', '{{[q];q::x;{w}::x;q}}']))
         def define_fn(self, data, f, tpl):
             defined = self.vars_of_kind('num', 'nlist', 'matrix', 'nnested')
             if not defined:
                 return
             wv = data.draw(st.sampled_from(defined))
             text = f'{f}::' + tpl.format(w=wv)
-            self.w.fn_assigns[f] = {wv} if '::q+1' in tpl else set()
+            self.w.fn_assigns[f] = {wv} if ';{w}::' in tpl else set()
             self.w.fn_reads[f] = {wv}
             self.w.called.discard(f)
             self.do(text, {f}, recipe={f: [text]})
@@ -330,7 +331,7 @@ def make_machine(stats, report):
             if f not in w.recipes:
                 return
             import re
-            assigned = set(re.findall(r';([a-z])::q\+1', w.recipes[f][0]))
+            assigned = set(re.findall(r';([a-z])::', w.recipes[f][0])) - {'q'}
             text = f'{f}({arg})'
             if bind:
                 text = f'{bind}::{text}'
@@ -347,6 +348,27 @@ def make_machine(stats, report):
             if not cands:
                 return
             self.do(tpl.format(w=data.draw(st.sampled_from(cands))), set())
+
+        @rule(data=st.data(), tpl=st.sampled_from(['{w}*2', '{w}+{w}', '(,1),{w}*2', '+/{w}', '{w}%2']), arg=st.sampled_from(['2', '[1 2]', '0.5']))
+        def text_call_same_text(self, data, tpl, arg):
+            """evaluate a text, call a function that assigns one of its variables, evaluate the same text again
+            (no top-level assignment in between)"""
+            import re
+            w = self.w
+            cands = []
+            for f in ('f', 'g'):
+                if f in w.recipes:
+                    for v in set(re.findall(r';([a-z])::', w.recipes[f][0])) - {'q'}:
+                        if v in self.vars_of_kind('num', 'nlist', 'matrix', 'nnested'):
+                            cands.append((f, v))
+            if not cands:
+                return
+            f, v = data.draw(st.sampled_from(sorted(cands)))
+            text = tpl.format(w=v)
+            self.do(text, set())
+            w.called.add(f)
+            self.do(f'{f}({arg})', {v})
+            self.do(text, set(), flag='repeated-text')
 
         @precondition(lambda self: len(self.w.history) > 0)
         @rule(data=st.data())
